@@ -29,6 +29,7 @@ RULE_TEXT = (
     "the DECIMAL(p,s) pattern captures whole digit runs; C06.f describe_as_rowtype(type name) == oracle (type, "
     "precision, scale, length); C06.g (in C04.d) user parameters recorded only with the user's statement; C06.h "
     "describe() hands positional rows to the conversion whatever the row format."
+    " C06.j after a MERGE no later statement of the same execute() drops/replaces a table the recorded statement reads."
 )
 TRUSTED = ["CPython ast", "DuckDB DESCRIBE accepts exactly one query", "COUNT_IF/SUM yield HUGEINT, COUNT yields BIGINT, integer literals INTEGER"]
 
